@@ -48,9 +48,9 @@ Proof. intros H. apply pgain_inner, groups_inner, H. Qed.
 Lemma pgain_bgroups gs : bgroups gs -> pgain gs 0.
 Proof.
   induction 1 as [g Hg|g r Hg Hr IH].
-  - destruct Hg as [o g' c Ho Hg' Hc]. apply (pgain_binner true). replace (o :: g' ++ [c]) with (o :: g' ++ c :: []) by reflexivity.
+  - destruct Hg as [o g' c Ho Hg' Hc]. apply (pgain_binner BSafe). replace (o :: g' ++ [c]) with (o :: g' ++ c :: []) by reflexivity.
     apply bi_group; [exact Ho | exact Hg' | exact Hc | apply bi_nil].
-  - apply pgain_app0; [|exact IH]. destruct Hg as [o g' c Ho Hg' Hc]. apply (pgain_binner true).
+  - apply pgain_app0; [|exact IH]. destruct Hg as [o g' c Ho Hg' Hc]. apply (pgain_binner BSafe).
     replace (o :: g' ++ [c]) with (o :: g' ++ c :: []) by reflexivity.
     apply bi_group; [exact Ho | exact Hg' | exact Hc | apply bi_nil].
 Qed.
